@@ -37,6 +37,8 @@ def BOUND(tier):
 
 
 def cases(tier):
+    for size in (4, 6):
+        yield ("ncread", size)
     for cmd in SIG.DATA_COMMANDS:
         for n in D.arities(cmd):
             yield ("large", cmd, n)
@@ -49,6 +51,72 @@ def cases(tier):
                     for miss in (0, 1):
                         for size in (4, 6):
                             yield (cmd, n, pi, dt, miss, size, tier)
+
+
+def _run_ncread(case):
+    """the same cells stored in NetCDF files as variables of EVERY shape of the size, with fixed dimensions and with the leading dimension declared
+    as the record (unlimited) dimension, with and without a missing cell: the real NetCDF EEMSRead and two commands downstream return arrays of
+    exactly the stored shape, holding the result for the plain vector, reshaped"""
+    import os
+    import shutil
+    from netCDF4 import Dataset
+    from mpilot.program import Program
+    from .. import snapshot
+
+    _, size = case
+    work = snapshot.scratch_dir("c05_")
+    viols, outcomes = [], {}
+    evals = judged = 0
+    sample = None
+    vals = [1.0, 4.0, 2.5, 0.0, 3.0, 1.5][:size]
+    libs = ("mpilot.libraries.eems.netcdf", "mpilot.libraries.eems.basic", "mpilot.libraries.eems.fuzzy")
+    try:
+        for miss in (None, 1):
+            base = None
+            for shape in [(size,)] + [s_ for s_ in D.shapes_of(size) if s_ != (size,)]:
+                for record in (False, True):
+                    names = ("t", "y", "x")[-len(shape):]
+                    path = os.path.join(work, "l.nc")
+                    snapshot.remove_path(path)
+                    with Dataset(path, "w") as ds:
+                        for i, (nm, sz) in enumerate(zip(names, shape)):
+                            ds.createDimension(nm, None if (record and i == 0) else sz)
+                            ds.createVariable(nm, "f8", (nm,))[:] = numpy.arange(sz)
+                        data = numpy.ma.MaskedArray(numpy.array(vals), mask=[i == miss for i in range(size)]).reshape(shape)
+                        ds.createVariable("layer", "f8", names, fill_value=-9999.0)[:] = data
+                    p = Program(libraries=libs, working_dir=work)
+                    p.add_command(p.find_command_class("EEMSRead"), "Layer", {"InFileName": "l.nc", "InFieldName": "layer"})
+                    p.add_command(p.find_command_class("CvtToFuzzy"), "Fz", {"InFieldName": p.commands["Layer"], "TrueThreshold": 4, "FalseThreshold": 0})
+                    p.add_command(p.find_command_class("FuzzyNot"), "Neg", {"InFieldName": p.commands["Fz"]})
+                    evals += 1
+                    judged += 1
+                    tag = {"stored_shape": list(shape), "leading_dimension_unlimited": record, "missing_cell": miss, "values": vals}
+                    sample = tag
+                    kind = "rank%d:%s" % (len(shape), "record" if record else "fixed")
+                    try:
+                        with numpy.errstate(all="ignore"):
+                            got = {nm: p.commands[nm].result for nm in ("Layer", "Fz", "Neg")}
+                    except Exception as exc:
+                        viols.append(V("C05:ncread:raised:%s" % type(exc).__name__, "reading a stored %r variable (%s) raised %s" % (shape, kind, str(exc).split("\n")[0][:160]), **tag))
+                        continue
+                    if base is None:
+                        base = got
+                    ok = True
+                    for nm in ("Layer", "Fz", "Neg"):
+                        r = got[nm]
+                        if tuple(r.shape) != tuple(shape):
+                            viols.append(V("C05:ncread:shape-changed:%s" % kind, "%s has shape %r for a stored variable of shape %r" % (nm, tuple(r.shape), shape), **tag))
+                            ok = False
+                            break
+                        b = base[nm].reshape(shape)
+                        if (numpy.ma.getmaskarray(r) != numpy.ma.getmaskarray(b)).any() or not numpy.array_equal(numpy.ma.filled(r, 0), numpy.ma.filled(b, 0)):
+                            viols.append(V("C05:ncread:not-equivariant:%s" % kind, "%s for the stored shape %r differs from the result for the vector, reshaped" % (nm, shape), **tag))
+                            ok = False
+                            break
+                    outcomes["ncread:%s:%s" % (kind, "ok" if ok else "bad")] = outcomes.get("ncread:%s:%s" % (kind, "ok" if ok else "bad"), 0) + 1
+    finally:
+        shutil.rmtree(work, ignore_errors=True)
+    return {"evals": evals, "nontrivial": judged, "judged": judged, "viols": viols[:30], "outcomes": outcomes, "sample": sample}
 
 
 def _run_large(case):
@@ -138,6 +206,8 @@ def _perms(size, tier):
 
 
 def run(case):
+    if case[0] == "ncread":
+        return _run_ncread(tuple(case))
     if case[0] == "large":
         return _run_large(tuple(case))
     cmd, n, pi, dt, miss, size, tier = tuple(case)
